@@ -22,7 +22,10 @@ mod mailbox;
 mod sync_impl;
 
 use parking_lot::Mutex;
+#[cfg(not(excsn_fibre_verif))]
 use std::collections::HashSet;
+#[cfg(excsn_fibre_verif)]
+use fibre_verif_rt::hash::HashSet;
 use std::hash::Hash;
 #[cfg(not(excsn_fibre_verif))]
 use std::sync::{
